@@ -27,6 +27,19 @@
    `ExchangeOptimal` (moving power between two channels never helps) involves two factors only and is
    checked for every length; for separable concave f it is equivalent to global optimality.
 
+   SCALING LAWS (derived from the definition, stated as invariants `ScaleLaws`, `ScaleLawsOptimum`).
+   The data enter the problem only through the vessel bottoms b_i = N0/(Es g_i) and through P:
+     (g, N0) -> (k g, k N0)   leaves every b_i unchanged:  same powers, same water level;
+     (N0, Es) -> (k N0, k Es) leaves every b_i unchanged:  same powers, same water level;
+     (g, Es) -> (k g, Es / k) leaves every b_i unchanged:  same powers, same water level;
+     (P, N0) -> (k P, k N0)   multiplies every b_i and P by k:  SUM max(0, k m - k b_i) = k P, so the
+                              water level and every power are multiplied by k (homogeneous of degree 1).
+   There is no absolute scale in the problem: gains of 1e-15 with noise 1e-15 are the same problem as
+   gains of 1 with noise 1.  The harness replays every case at common scales 1e-30 .. 1e+30 on the
+   strength of these laws (the exact expected values are those of the unscaled case).
+   Dev.AbsGainFloor (gains below an absolute threshold are raised to it - a "division guard") is invisible
+   on a domain whose gains lie above the threshold; it is refuted by `ScaleLaws` only.
+
    Dev.MuIgnoresEs is the known defect of the code (returned mu = p_best + N0/g_best, Es missing).
    The other Dev fields are plausible regressions; each is refuted by one of the invariants, which
    shows that no invariant is vacuous.  Opt.DropOnTie replaces the drop test `>` by `>=`; the
@@ -37,8 +50,10 @@ CONSTANTS Gains,       \* set of Rat: alphabet of channel power gains
           FirstGains,  \* subset of Gains: the first gain of the vector (partition key for parallel runs)
           Lens,        \* set of vector lengths
           Powers, Noises, Energies,   \* sets of Rat (all > 0)
-          Dev,         \* [MuIgnoresEs, SpreadOverAll, AscendingSort, NoUnsort, StopEarly, EsDroppedInLoop : BOOLEAN]
+          Dev,         \* [MuIgnoresEs, SpreadOverAll, AscendingSort, NoUnsort, StopEarly, EsDroppedInLoop,
+                       \*  AbsGainFloor : BOOLEAN]
           Opt          \* [AllTieBreaks, DropOnTie, PermAll : BOOLEAN, GridN, ExN : Nat, ExAMax : Rat,
+                       \*  Scales : set of Rat (factors k of the scaling laws), GainFloor : Rat (Dev.AbsGainFloor),
                        \*  OptAMax : Seq(Rat)]  OptAMax[n] bounds a_i = g_i Es/N0 for which `Optimal` is
                        \*  evaluated on vectors of length n (<<0,1>>: never; longer than the sequence: never)
 
@@ -97,6 +112,9 @@ SortOrders(g)  == {o \in Bij(Len(g)) : IF Dev.AscendingSort THEN Ascending(g, o)
 \* the order numpy produces, argsort(g)[::-1]: equal gains appear in descending index order
 NumpyOrder(g)  == CHOOSE o \in SortOrders(g) : \A k \in 1..(Len(g) - 1) : g[o[k]] = g[o[k + 1]] => o[k] > o[k + 1]
 
+\* the sorted gains as the code sees them (a regression floors them at an absolute threshold)
+Seen(g)        == IF Dev.AbsGainFloor /\ QLt(g, Opt.GainFloor) THEN Opt.GainFloor ELSE g
+
 \* code: BottomLoop is the in-loop minMu (a regression drops Es there)
 BottomLoop(c, g) == IF Dev.EsDroppedInLoop THEN RDiv(c.n0, g) ELSE Bottom(c, g)
 PsAt(c, s, r)  == LET n == Len(s)
@@ -130,7 +148,7 @@ Pick == /\ pc = "idle"
 Sort == /\ pc = "sort"
         /\ \E o \in (IF Opt.AllTieBreaks THEN SortOrders(inp.g) ELSE {NumpyOrder(inp.g)}) :
              /\ ord' = o
-             /\ gs' = [k \in Idx(inp) |-> inp.g[o[k]]]
+             /\ gs' = [k \in Idx(inp) |-> Seen(inp.g[o[k]])]
         /\ pc' = "level"
         /\ UNCHANGED <<inp, rem, lvl, ps, aux, pw, mu>>
 
@@ -172,7 +190,7 @@ Next == Pick \/ Sort \/ Level \/ DropWorst \/ Spread \/ Unsort \/ Mu
 \* the same steps composed as a function (used for PermutationEquivariant and RunAgrees)
 RECURSIVE DropCount(_, _, _)
 DropCount(c, s, r) == IF NeedDrop(c, PsAt(c, s, r), r) THEN DropCount(c, s, r + 1) ELSE r
-Run(c, o) == LET s == [k \in Idx(c) |-> c.g[o[k]]]
+Run(c, o) == LET s == [k \in Idx(c) |-> Seen(c.g[o[k]])]
                  r == DropCount(c, s, 0)
                  a == SpreadOp(c, PsAt(c, s, r), IF Dev.SpreadOverAll THEN N(c) ELSE N(c) - r)
              IN  [pw |-> UnsortOp(o, a, N(c)), mu |-> MuOp(c, s, a), rem |-> r]
@@ -213,6 +231,25 @@ PermutationEquivariant ==
                    r2 == Run(c2, NumpyOrder(c2.g))
                IN  r2.pw = [i \in Idx(inp) |-> pw[s[i]]] /\ r2.mu = mu
 RunAgrees == Done => LET r == Run(inp, ord) IN r.pw = pw /\ r.mu = mu /\ r.rem = rem
+
+\* scaling laws (see the header): kg, kp, kn, ke multiply gains, total power, noise, symbol energy
+Scaled(c, kg, kp, kn, ke) == [g |-> [i \in Idx(c) |-> RMul(c.g[i], kg)], p |-> RMul(c.p, kp),
+                              n0 |-> RMul(c.n0, kn), es |-> RMul(c.es, ke)]
+RunOf(c)   == Run(c, NumpyOrder(c.g))
+Same(r)    == r.pw = pw /\ r.mu = mu
+Times(r, k) == r.pw = [i \in Idx(inp) |-> RMul(pw[i], k)] /\ r.mu = RMul(mu, k)
+ScaleLaws  == Done => \A k \in Opt.Scales :
+                /\ Same(RunOf(Scaled(inp, k, ROne, k, ROne)))             \* gains and noise by a common factor
+                /\ Same(RunOf(Scaled(inp, ROne, ROne, k, k)))             \* only N0/Es matters
+                /\ Same(RunOf(Scaled(inp, k, ROne, ROne, RInv(k))))       \* only g*Es matters
+                /\ Times(RunOf(Scaled(inp, ROne, k, k, ROne)), k)         \* homogeneous of degree 1 in (P, N0)
+\* the same laws for the declaratively defined optimum (they are laws of the problem, not of the algorithm)
+ScaleLawsOptimum == Done => \A k \in Opt.Scales :
+                /\ OptMu(Scaled(inp, k, ROne, k, ROne)) = OptMu(inp)
+                /\ OptMu(Scaled(inp, ROne, ROne, k, k)) = OptMu(inp)
+                /\ OptMu(Scaled(inp, k, ROne, ROne, RInv(k))) = OptMu(inp)
+                /\ OptMu(Scaled(inp, ROne, k, k, ROne)) = RMul(OptMu(inp), k)
+                /\ OptP(Scaled(inp, ROne, k, k, ROne)) = [i \in Idx(inp) |-> RMul(OptP(inp)[i], k)]
 
 \* loop lemmas
 KeepsOne  == pc \in {"loop", "unsort", "mu", "done"} => rem < N(inp)
